@@ -32,7 +32,7 @@ fn rnd255(v: u8, pos: usize) -> u8 {
 }
 
 // representatives of the Unicode classes
-const REPS: [u32; 16] = [0x41, 0x7E, 0x20, 0x31, 0x0A, 0x1D, 0x7F, 0x80, 0x9F, 0xA0, 0xE9, 0xFF, 0x100, 0x20AC, 0xFFFF, 0x1F978];
+const REPS: [u32; 17] = [0x41, 0x7E, 0x20, 0x31, 0x0A, 0x1D, 0x7F, 0x80, 0x9F, 0xA0, 0xE9, 0xFF, 0x100, 0x20AC, 0xFFFF, 0x1F978, 0xFEFF];
 
 fn rand_scalar(rng: &mut Rng) -> u32 {
     loop {
@@ -52,10 +52,16 @@ fn rand_scalar(rng: &mut Rng) -> u32 {
 }
 
 fn encode_str_case(idx: usize, stratum: &'static str, cps: &[u32], macros: bool) -> Value {
+    encode_str_case_modes(idx, stratum, cps, macros, 63)
+}
+
+fn encode_str_case_modes(idx: usize, stratum: &'static str, cps: &[u32], macros: bool, modes: u8) -> Value {
     let s: String = cps.iter().filter_map(|c| char::from_u32(*c)).collect();
     set_case(idx, "encode_str");
     let s2 = s.clone();
-    let r = guarded(move || DataMatrixBuilder::new().with_symbol_list(SymbolList::default()).with_macros(macros).encode_str(&s2));
+    let r = guarded(move || {
+        DataMatrixBuilder::new().with_symbol_list(SymbolList::default()).with_macros(macros).with_encodation_types(modes_from_mask(modes)).encode_str(&s2)
+    });
     let mut events = Vec::new();
     match r {
         Outcome::Val(Ok(d)) => {
@@ -65,7 +71,7 @@ fn encode_str_case(idx: usize, stratum: &'static str, cps: &[u32], macros: bool)
         Outcome::Val(Err(e)) => events.push(json!({"ev": "EncodeStr", "res": {"kind": "Err", "err": format!("{:?}", e)}})),
         Outcome::Panic(l, m) => events.push(json!({"ev": "EncodeStr", "res": panic_json(&l, &m)})),
     }
-    json!({"id": idx, "fam": "str", "stratum": stratum, "cps": cps, "macro": macros, "events": events})
+    json!({"id": idx, "fam": "str", "stratum": stratum, "cps": cps, "macro": macros, "modes": modes, "events": events})
 }
 
 pub fn run(tier: &str, seed: u64, focus: &str, out: &mut Out) {
@@ -105,7 +111,7 @@ pub fn run(tier: &str, seed: u64, focus: &str, out: &mut Out) {
             out.put(&encode_str_case(next(), "random", &s, rng.chance(3, 4)));
         }
         // (2b) runs of one class with a few unusual scalars inside (UTF-8 continuation bytes 0x80..0xBF inside C40/Text/X12 runs)
-        let odd: [u32; 12] = [0x80, 0x85, 0x9F, 0x100, 0x153, 0x17F, 0x20AC, 0x2028, 0x1F600, 0xA0, 0x7F, 0x0A];
+        let odd: [u32; 14] = [0x80, 0x85, 0x9F, 0x100, 0x153, 0x17F, 0x20AC, 0x2028, 0x1F600, 0xA0, 0x7F, 0x0A, 0xFEFF, 0xC9];
         for _ in 0..(if thorough { 3000 } else { 500 }) {
             let c = *rng.pick(&[Class::Upper, Class::Lower, Class::Digits, Class::X12, Class::EdifactPunct, Class::UpperDigit, Class::LowerSpace]);
             let n = rng.range(4, 40);
@@ -115,6 +121,16 @@ pub fn run(tier: &str, seed: u64, focus: &str, out: &mut Out) {
                 s.insert(pos, *rng.pick(&odd));
             }
             out.put(&encode_str_case(next(), "runsWithOddball", &s, true));
+            // the same kind of string with a restricted mode set (a third of them without ASCII)
+            let mut t = s.clone();
+            if rng.chance(1, 2) {
+                t.push(*rng.pick(&odd));
+            }
+            if rng.chance(1, 3) {
+                t.insert(0, 0xFEFF);
+            }
+            let modes = if rng.chance(1, 2) { ((1 + rng.below(31)) << 1) as u8 } else { (1 + rng.below(63)) as u8 };
+            out.put(&encode_str_case_modes(next(), "restrictedModes", &t, true, modes));
         }
         // (3) macro-enveloped bodies of every tail shape
         let mut bodies: Vec<Vec<u32>> = vec![vec![], vec![0x41], vec![0x1F918]];
@@ -286,6 +302,15 @@ pub fn run(tier: &str, seed: u64, focus: &str, out: &mut Out) {
                     }
                 }
             }
+        }
+        for tail in [&b""[..], b"A", b"\xC3\xA9", b"\xEF\xBB\xBF", b"\x80"] {
+            let mut s = vec![0xEF, 0xBB, 0xBF];
+            s.extend_from_slice(tail);
+            seqs.push(s);
+            let mut s = b"A".to_vec();
+            s.extend_from_slice(&[0xEF, 0xBB, 0xBF]);
+            s.extend_from_slice(tail);
+            seqs.push(s);
         }
         for _ in 0..(if thorough { 20000 } else { 2000 }) {
             let n = rng.range(1, 6);
